@@ -19,7 +19,8 @@ RULE = ("histories = every sequence of operations {create(e), create(e,{a:1}), s
         "call on a restored tree with cold caches; in every distinct state: return/raise of the operation, unchanged tree "
         "after failure, exists (FindInPaths, FindInAll, sid.exists), get_data from a new Getter, get_attr, 20+ searches on "
         "two Finders, tree inventory. Stateless part: every sequence of length <= L executed with no reset at all. "
-        "New-process part: states at depth <= 2 re-observed by a new interpreter. distinct = distinct trees; non-trivial = all.")
+        "New-process part: states at depth <= 2 re-observed by a new interpreter. distinct = distinct trees; non-trivial = all."
+        " Added: the no-reset sequences are read before the first write, between writes and at the end.")
 ASSUMPTIONS = ["cold caches + tree determine the future (checked: same tree reached twice must carry the same model state; C13 checks warm caches)"]
 
 
